@@ -90,10 +90,16 @@ impl Filter {
     }
 }
 
+/// Spellings whose meaning moves with the chain tip.
+fn relative(s: &str) -> bool {
+    ["latest", "safe", "finalized", "pending"].contains(&s)
+}
+
 fn spell(rng: &mut Rng, n: u64, latest: u64) -> String {
     match rng.below(4) {
         0 => format!("{}", n),
-        1 if n == latest => "latest".into(),
+        1 if n == latest => (*rng.pick(&["latest", "latest", "safe", "finalized"])).to_string(),
+        1 if n == latest + 1 => "pending".into(),
         2 if n == 0 => "earliest".into(),
         _ => format!("0x{:x}", n),
     }
@@ -367,7 +373,7 @@ fn one_case(ctx: &WorkerCtx, rep: &mut WorkerReport, case_seed: u64, nfilters: u
     // the old filters with explicit ranges still have the same reference answers, except
     // default/'latest'-spelled ones: regenerate a mixed set
     let latest2 = d.height as u64;
-    let mut filters2: Vec<Filter> = filters.iter().filter(|f| f.from.is_some() && f.to.is_some() && !f.from.as_ref().unwrap().1.contains("latest") && !f.to.as_ref().unwrap().1.contains("latest")).cloned().collect();
+    let mut filters2: Vec<Filter> = filters.iter().filter(|f| f.from.is_some() && f.to.is_some() && !relative(&f.from.as_ref().unwrap().1) && !relative(&f.to.as_ref().unwrap().1)).cloned().collect();
     for _ in 0..nfilters / 2 {
         filters2.push(gen_filter(&mut rng, latest2, &emitters));
     }
